@@ -4,13 +4,14 @@ import os, sys, json, shutil, subprocess
 VERIF = os.path.dirname(os.path.dirname(os.path.abspath(__file__)))
 sys.path.insert(0, os.path.join(VERIF, "tools"))
 import seeded
-pid = sys.argv[1]
-src = "/tmp/seed-%s/_out" % pid
+tag = sys.argv[1]
+pid = tag[:3]
+src = "/tmp/seed-%s/_out" % tag
 for k in sorted(os.listdir(src)):
     d = os.path.join(src, k)
     if not os.path.isdir(d) or not os.path.exists(os.path.join(d, "patch.diff")):
         continue
-    sid = "%s-%s" % (pid, k.replace("change", ""))
+    sid = "%s-%s" % (tag, k.replace("change", ""))
     dst = os.path.join(VERIF, "seeded", sid)
     os.makedirs(dst, exist_ok=True)
     for f in ("patch.diff", "demo.py", "README.md"):
